@@ -232,9 +232,9 @@ def check_property(pid, tier, seed, write_evidence=True):
         violations.append("harness")
         exit_code = 1
     for er in extra:
-        for v in er.get("violations", []):
+        for v in er.get("violations", [])[:1]:
             rp = os.path.join(HERE, "replays", f"{pid}-{safe(er['name'])}.json")
-            write_json(rp, dict(property=pid, obligation=er["name"], failing_input=v, repo=REPO))
+            write_json(rp, dict(property=pid, obligation=f"bounded stand-in '{er['name']}'", failing_input=v, other_failing_cases=len(er["violations"]) - 1, repo=REPO))
             lines.append(f"VIOLATION property={pid} replay={rp}")
             violations.append(er["name"])
             exit_code = 1
